@@ -29,6 +29,9 @@ pub fn rsets() -> Vec<(&'static str, Vec<(&'static str, &'static str, &'static s
         ("comm", vec![("add-comm", "(add ?a ?b)", "(add ?b ?a)"), ("mul-comm", "(mul ?a ?b)", "(mul ?b ?a)")]),
         ("beta+let", vec![("beta", "(app (lam $x ?b) ?e)", "?b[(var $x) := ?e]"), ("let", "(let $x ?b ?e)", "(app (lam $x ?b) ?e)")]),
         ("sym-intro", vec![("wrap", "(app ?f ?x)", "(app (app apply ?f) ?x)"), ("fold", "(add ?a ?a)", "(mul two ?a)")]),
+        // creates a class from an e-node that mixes fresh slots with the user's named slots (their relative order decides the
+        // numbering of the new class's parameters)
+        ("eta", vec![("eta", "(add ?a ?b)", "(lam $w (app (add ?a ?b) (var $w)))")]),
     ]
 }
 
@@ -48,6 +51,9 @@ pub fn alphabet() -> Vec<ROp> {
         ROp::Rw(0),
         ROp::Rw(1),
         ROp::Rw(2),
+        ROp::Rw(3),
+        // a user slot spelled like a fresh slot next to an ordinary named slot
+        ROp::Add("(mul (var $f2) (var $x))"),
         ROp::Match("(app ?f ?x)"),
         ROp::Match("(add ?a ?b)"),
         ROp::Match("(mul ?a (var $q))"),
@@ -345,7 +351,7 @@ impl Prop for ReproProp {
     }
     fn segments(&self, tier: Tier, _cfg: &str) -> Vec<Seg> {
         let n = alphabet().len() as u64;
-        depths(tier).into_iter().map(|d| Seg { name: if d == 103 { "histories-of-length-3-starting-with-a-union".to_string() } else { format!("histories-of-length-{d}") }, count: seg_count(d), what: format!("one index = one history of {} operations over a {n}-operation alphabet", d % 100) + &format!(" of the Symbol-carrying Arith language (insert, union, 3 rewrite-iteration rule sets incl. the substitution form, 2 ematch patterns, extract); executed once per (interferer schedule, replica kind), each in its own process") }).collect()
+        depths(tier).into_iter().map(|d| Seg { name: if d == 103 { "histories-of-length-3-starting-with-a-union".to_string() } else { format!("histories-of-length-{d}") }, count: seg_count(d), what: format!("one index = one history of {} operations over a {n}-operation alphabet", d % 100) + &format!(" of the Symbol-carrying Arith language (insert, union, 4 rewrite-iteration rule sets incl. the substitution form and an eta rule that mixes fresh and named slots, 3 ematch patterns, extract); executed once per (interferer schedule, replica kind), each in its own process") }).collect()
     }
     fn goals(&self) -> Vec<&'static str> {
         vec!["interferer_shifted_a_symbol_id", "history_with_rewrite_iteration", "history_with_match_list", "noise_thread_replica_run"]
